@@ -1,6 +1,6 @@
 \* as coded; two streams: tricks
 CONSTANTS Streams <- MCStreams Choices <- ChTrick1 BadBatches <- MCBad InitHeight = 1 MaxHeight = 2
-  InputCap = 2 OutCap = 1 MaxDup = 2 MaxExtra = 1 MaxGot = 2
+  InputCap = 2 OutCap = 1 MaxDup = 1 MaxExtra = 0 MaxGot = 2
   FixNilState = FALSE FixBlock = FALSE FixReFin = FALSE SeqWindow = 0 BufBound = 99 Mut = "none"
 INIT Init
 NEXT Next
